@@ -85,6 +85,66 @@ theorem C13_disconnected_once (s s' : CS) (h : step s (.status .disconnected) = 
 theorem C13_no_spin (s : CS) (c : Nat) : step s (.recvIter c false) = none := by
   simp [L13.step_eq_none, stepCore, L13.guard_eq_none]
 
+/-- **One reconnect task serves all fault reports**: a reconnect task is only started when none is alive, so in every
+accepted trace at most one is alive — however many senders report the same lost link -/
+theorem C13_single_reconnect (evs : List Ev) (s : CS) (h : runTrace init evs = some s) : s.reconn ≤ 1 :=
+  (L13.reconnInv_init h).1
+
+theorem C13_single_reconnect_step (s s' : CS) (h : step s .reconnStart = some s') : s.reconn = 0 ∧ s'.reconn = 1 := by
+  rcases L13.step_reconn_frame h with ⟨-, h1, h2, -⟩ | ⟨_, h1, -⟩ | ⟨h1, -⟩ | ⟨h1, -⟩ | ⟨h1, -⟩
+  · exact ⟨h1, h2⟩
+  · cases h1
+  · cases h1
+  · cases h1
+  · exact absurd rfl h1
+
+/-- the events since the latest start of a reconnect task (the whole trace if there is none) -/
+def sinceReconnStart : List Ev → List Ev
+  | [] => []
+  | e :: es => if es.contains .reconnStart then sinceReconnStart es else (if e = .reconnStart then es else e :: es)
+
+/-- `sinceReconnStart` is what follows the last `.reconnStart` -/
+theorem sinceReconnStart_split (pre post : List Ev) (hp : Ev.reconnStart ∉ post) :
+    sinceReconnStart (pre ++ .reconnStart :: post) = post := by
+  induction pre with
+  | nil => simp [sinceReconnStart, hp]
+  | cons a pre ih => simp [sinceReconnStart, ih]
+
+/-- **Never-zero delay on the reconnect path**: in every accepted trace, whenever the reconnect task calls connect() it has
+waited at least 500 ms (the first back-off delay) since it was started -/
+theorem C13_reconnect_waits (evs : List Ev) (s s' : CS) (h : runTrace init evs = some s) (hc : step s .reconnCall = some s') :
+    ∃ ms, 500 ≤ ms ∧ .reconnSleep ms ∈ sinceReconnStart evs := by
+  rcases L13.step_reconn_frame hc with ⟨h1, -⟩ | ⟨_, h1, -⟩ | ⟨h1, -⟩ | ⟨-, h1, h2, -⟩ | ⟨-, -, -, h1, -⟩
+  · cases h1
+  · cases h1
+  · cases h1
+  · obtain ⟨pre, post, rfl, hp, hw⟩ := (L13.reconnInv_init h).2 h1
+    rw [sinceReconnStart_split pre post hp]
+    exact hw h2
+  · exact absurd rfl h1
+
+/-- … and it calls connect() only once: every further attempt is connect()'s own retry with its back-off delay -/
+theorem C13_reconnect_calls_once (s s' : CS) (h : step s .reconnCall = some s') : step s' .reconnCall = none := by
+  obtain ⟨t, ht, rfl⟩ := L13.step_eq_some.1 h
+  simp only [stepCore, L13.guard_eq_some] at ht
+  obtain ⟨-, rfl⟩ := ht
+  simp [L13.step_eq_none, stepCore, L13.guard_eq_none]
+
+/-- a reconnect task is only ever started after a fault -/
+theorem C13_reconnect_after_fault (s s' : CS) (h : step s .reconnStart = some s') : s.faults > 0 := by
+  obtain ⟨t, ht, -⟩ := L13.step_eq_some.1 h
+  simp only [stepCore, L13.guard_eq_some, Bool.and_eq_true, decide_eq_true_eq] at ht
+  exact ht.1.2
+
+-- a second reconnect task while one is alive, and a reconnect that does not wait, are not behaviours of the model
+example : runTrace init [.connCall, .implStart, .implOk 1, .status .connected, .connReturn, .recvStart 1, .envEof 1, .writerClose 1,
+    .status .disconnected, .recvExit 1 false, .reconnStart, .sendCall 1, .writeFail 1 1, .reconnStart] = none := by decide +kernel
+example : runTrace init [.connCall, .implStart, .implOk 1, .status .connected, .connReturn, .recvStart 1, .envEof 1, .writerClose 1,
+    .status .disconnected, .recvExit 1 false, .reconnStart, .reconnCall] = none := by decide +kernel
+example : (runTrace init [.connCall, .implStart, .implOk 1, .status .connected, .connReturn, .recvStart 1, .envEof 1, .writerClose 1,
+    .status .disconnected, .recvExit 1 false, .reconnStart, .reconnSleep 500, .reconnCall, .implStart, .implOk 2, .status .connected,
+    .connReturn, .reconnEnd, .recvStart 2]).map (fun s => (s.st, s.reconn, s.conn)) = some (.connected, 0, some 2) := by decide +kernel
+
 -- non-vacuity: three refusals then success from the initial state
 example : (runTrace init (recoveryTrace 3 1)).map (fun s => (s.st, s.recv, s.statusLog)) = some (.connected, some 1, [.connected]) := by decide +kernel
 
